@@ -813,6 +813,31 @@ def all_paths_rules(r, repo: Repo, ck: Check) -> None:
     if af_calls and all(ast.unparse(c) == "project.all_files()" for c in af_calls) and not under:
         r.violation("reuse.cli.annotate.all_paths", "child filter",
                     "children of a directory argument must be restricted to the covered files below it", repo.loc(ap))
+    # like with like: `X in child.parents` / `child.is_relative_to(X)` compare path components - when the children are resolved
+    # (absolute) the directory argument has to be resolved too, and the other way round
+    from ..rules import deep_text
+    for n in under:
+        for g in n.generators:
+            src_txt = deep_text(ap, g.iter)
+            children_resolved = ".resolve()" in src_txt or ".absolute()" in src_txt
+            for i in g.ifs:
+                for c in ast.walk(i):
+                    operand = None
+                    if isinstance(c, ast.Compare) and len(c.ops) == 1 and isinstance(c.ops[0], ast.In) and ast.unparse(c.comparators[0]).endswith(".parents"):
+                        operand = c.left
+                    elif isinstance(c, ast.Call) and isinstance(c.func, ast.Attribute) and c.func.attr == "is_relative_to" and c.args:
+                        operand = c.args[0]
+                    if operand is None:
+                        continue
+                    op_txt = deep_text(ap, operand)
+                    op_resolved = ".resolve()" in op_txt or ".absolute()" in op_txt
+                    r.instance("annotate-recursive-like-with-like", {"children": src_txt[:70], "children_resolved": children_resolved,
+                                                                     "directory": op_txt[:50], "directory_resolved": op_resolved})
+                    if children_resolved != op_resolved:
+                        r.violation("reuse.cli.annotate.all_paths", "the child filter compares a resolved path with one spelled as given",
+                                    f"children come from `{src_txt[:60]}`, the directory is `{op_txt[:40]}`: for a relative directory argument no"
+                                    " covered file is 'below' it - `reuse annotate -r src` touches nothing (or, the other way round, misses"
+                                    " every file)", repo.loc(c))
 
 
 # ------------------------------------------------------------------ R5
@@ -912,7 +937,14 @@ def rule_vcs(ck: Check, repo: Repo) -> None:
         scope = [sf] + [repo.functions[f"{owner}.{c.func.attr}"] for c in ast.walk(sf) if isinstance(c, ast.Call) and isinstance(c.func, ast.Attribute)
                         and isinstance(c.func.value, ast.Name) and c.func.value.id in ("self", "cls") and f"{owner}.{c.func.attr}" in repo.functions]
         probes = [ast.unparse(c)[:50] for f in scope for c in ast.walk(f) if isinstance(c, ast.Call) and isinstance(c.func, ast.Attribute) and c.func.attr in PROBES]
-        r.instance(f"submodule-test:{sq}", {"function": sq, "file_system_probes": probes}, sq)
+        rets = [n for n in ast.walk(sf) if isinstance(n, ast.Return) and n.value is not None]
+        answers = [ast.unparse(n.value)[:70] for n in rets]
+        always_true = [a for n, a in zip(rets, answers) if isinstance(n.value, ast.Constant) and n.value.value is True]
+        r.instance(f"submodule-test:{sq}", {"function": sq, "file_system_probes": probes, "answers": answers}, sq)
+        if always_true:
+            r.violation(sq, "is_submodule answers True unconditionally",
+                        "every directory is pruned as a 'submodule': under that VCS lint, spdx and annotate -r examine no file below the root",
+                        repo.loc(sf))
         if probes:
             r.violation(sq, f"is_submodule probes the tree ({probes[0]})",
                         "a tracked directory that merely contains an entry named `.git` (an empty file, a leftover directory) is pruned like a"
